@@ -256,6 +256,12 @@ func (*c03Prop) Gen(r *Rand, pl *Plan) Case {
 		}
 		c.Input = c.G.genInput(r, alphabet, maxLen)
 	}
+	if !hasRich(c.G) && r.Chance(1, 6) {
+		// the same grammar over a non-ASCII alphabet: byte offsets and rune counts differ
+		to := []string{"é", "世", "\U0001F600"}[r.Intn(3)]
+		c.G.translit('b', to)
+		c.Input = strings.Replace(c.Input, "b", to, -1)
+	}
 	c.Prefix = genPrefix(r)
 	n := len(c.G.Nodes)
 	reps := r.Range(3, 4)
